@@ -114,9 +114,10 @@ class State:
 
 
 class Ref:
-    def __init__(self, prog, max_states=200000, sleep_paused_variants=True):
+    def __init__(self, prog, max_states=200000, end_date=None):
         self.prog = prog
         self.max_states = max_states
+        self.end_date = end_date   # date at which the engine gave up (deadlocked actors are killed then); None = last event
         self.hosts = {h["name"]: dict({"speed": 2.0 ** 30, "cores": 1}, **h) for h in prog.get("hosts", [])}
         for h in self.hosts.values():
             h["disks"] = [dict({"rbw": 2.0 ** 20, "wbw": 2.0 ** 20}, **d) for d in h.get("disks", [])]
@@ -278,6 +279,23 @@ class Ref:
             s.queues[qk] = tuple(x for x in s.queues.get(qk, ()) if x != oid)
         o.st = "canceled"
 
+    def fail_obj(self, s, oid, dying):
+        o = s.O(oid)
+        o.st = "failed"
+        for i in s.order:
+            b = s.actors[i]
+            if i == dying or b.st != "blocked" or b.wait is None:
+                continue
+            w = b.wait
+            if w[0] == "obj" and w[1] == oid:
+                self.wake(s, s.A(i), (b.ops[b.pc][0], "netfail"))
+            elif w[0] == "wait" and s.vars[w[1]][1] == oid:
+                k, _, st, spec = s.vars[w[1]]
+                s.vars[w[1]] = (k, oid, "FAILED", spec)
+                self.wake(s, s.A(i), (w[4], "netfail"))
+            elif w[0] == "waitany" and any(s.vars[v][1] == oid for v in s.sets.get(w[1], ())):
+                raise RefError("failure inside an activity set")
+
     def pause(self, s, oid, who, on):
         o = s.objs[oid]
         if o.st != "running":
@@ -304,27 +322,31 @@ class Ref:
         for oid in list(s.objs):
             o = s.objs[oid]
             if a.id in o.owners and o.st in ("running", "waiting"):
-                self.cancel_obj(s, oid)
+                if o.kind == "comm" and o.st == "running" and len(o.owners) == 2:
+                    self.fail_obj(s, oid, a.id)      # the peer of a dying actor sees a network failure
+                else:
+                    self.cancel_obj(s, oid)
         for i in s.order:       # joiners return at the death date
             b = s.actors[i]
             if b.st == "blocked" and b.wait[0] == "join" and b.wait[1] == a.id:
                 self.wake(s, s.A(i), ("join", "ok"))
 
     def wake(self, s, b, record):
-        """b (cloned) stops waiting and logs record — now, or when it is resumed if it is suspended"""
+        """b (cloned) stops waiting; it logs `record` when it next runs (a kill at the same date may come first), which
+        is only after it has been resumed if it is suspended"""
         b.wait = None
-        if b.susp:
-            b.pending = record
-            return
         b.st = "ready"
-        if record is not None:
-            self.log(s, b, record[0], record[1])
-        b.pc += 1
+        b.pending = record
 
     # ---------------------------------------------------------------- one actor step
     def step(self, s, aid):
         """execute the next op of actor aid in (already cloned) state s; returns a list of successor states (choices)"""
         a = s.A(aid)
+        if a.pending is not None:
+            rec, a.pending = a.pending, None
+            self.log(s, a, rec[0], rec[1])
+            a.pc += 1
+            return [s]
         if a.pc >= len(a.ops):
             self.log(s, a, "end", "-")
             self.die(s, a, False)
@@ -398,6 +420,8 @@ class Ref:
                 return done()
             if st == "CANCELED":
                 return done("cancel")
+            if st == "FAILED":
+                return done("netfail")
             if oid is None:
                 self.start_var(s, a, v)
                 kind, oid, st, spec = s.vars[v]
@@ -414,6 +438,9 @@ class Ref:
                 return done()
             if o.st == "canceled":
                 return done("cancel")
+            if o.st == "failed":
+                s.vars[v] = (kind, oid, "FAILED", spec)
+                return done("netfail")
             return block(("wait", v, dl, n == "wait_for_or_cancel", n))
         if n == "test":
             kind, oid, st, spec = s.vars[op[1]]
@@ -530,11 +557,6 @@ class Ref:
                             self.pause(s, oid, b.id, False)
                     if b.wait == ("selfsusp",):
                         self.wake(s, b, ("suspend", "ok"))
-                    elif b.pending is not None:
-                        rec, b.pending = b.pending, None
-                        b.st = "ready"
-                        self.log(s, b, rec[0], rec[1])
-                        b.pc += 1
                 return done()
             if n == "is_suspended":
                 return done("true" if s.actors[tid].susp else "false")
@@ -722,6 +744,8 @@ class Ref:
             if live:
                 self.deadlock = True
                 s2 = s.clone()
+                if self.end_date is not None and self.end_date > s2.now:
+                    s2.now = self.end_date
                 for i in live:
                     self.die(s2, s2.A(i), True)
                 s = s2
@@ -744,7 +768,7 @@ def normalize(obs):
         for log in obs["actors"][n]:
             l = []
             for (ev, val, clock) in log:
-                if ev == "on_exit":
+                if ev == "on_exit" and ":" in val:       # a callback ("k:failed:own|inh"); the registration op logs "ok"
                     k, failed, own = val.split(":")
                     if own != "own":
                         continue
